@@ -393,10 +393,18 @@ func c01Run(rt *hookrt.Runtime, c *c01Case, stall time.Duration) {
 	for _, l := range c.FailSrc {
 		fail[l] = true
 	}
+	closedPS := gochannel.NewGoChannel(cfg, logger)
+	closedPS.Close()
 	publishSrc := func(lin int) {
 		if fail[lin] {
-			// the source publisher fails before anything reaches the topic
+			// a REAL failing source publish: the producer's Pub/Sub (a GoChannel with the same
+			// configuration) has been closed, Publish returns "Pub/Sub closed"; the message was never
+			// really published and must not show up anywhere
+			err := closedPS.Publish(topic(0), c01Make(c01Msg{Lin: lin, Path: []int{}}))
 			c.mu.Lock()
+			if err == nil {
+				c.Notes = append(c.Notes, "Publish on a closed Pub/Sub returned nil")
+			}
 			c.srcOpen--
 			c.touch()
 			c.mu.Unlock()
